@@ -756,7 +756,7 @@ func c07R2Push(c *Ctx) {
 		pkg, name string
 		skip      string
 	}
-	for _, x := range []t{{"content/memory", "Store.Push", ""}, {"content/oci", "Store.Push", ""}, {"content/file", "Store.Push", "~/content/file.errSkipUnnamed"}} {
+	for _, x := range []t{{"content/memory", "Store.Push", ""}, {"content/oci", "Store.Push", ""}, {"content/file", "Store.Push", "skip"}} {
 		fn := c.P.Fn(x.pkg, x.name)
 		if fn == nil || len(fn.Blocks) == 0 {
 			c.LostAnchor(R, x.pkg+"."+x.name)
@@ -800,10 +800,14 @@ func c07R2Push(c *Ctx) {
 			Edges: func(e *c05Env) []Edge {
 				var out []Edge
 				if x.skip != "" {
-					te, _, _ := CallTests(e.Fn, "errors.Is", func(call *ssa.Call) bool { return sentinelName(call.Call.Args[1]) == x.skip })
+					skip := map[string]bool{}
+					for _, sn := range c05SkipSentinels(c.P) {
+						skip[sn] = true
+					}
+					te, _, _ := CallTests(e.Fn, "errors.Is", func(call *ssa.Call) bool { return skip[sentinelName(call.Call.Args[1])] })
 					out = append(out, te...)
 					// `err == errSkipUnnamed` / switch forms
-					eq, _ := c05EqEdges(e.Fn, func(v ssa.Value) bool { return isErrorType(v.Type()) }, func(v ssa.Value) bool { return sentinelName(v) == x.skip })
+					eq, _ := c05EqEdges(e.Fn, func(v ssa.Value) bool { return isErrorType(v.Type()) }, func(v ssa.Value) bool { return skip[sentinelName(v)] })
 					out = append(out, eq...)
 				}
 				// kinds without outgoing edges need no indexing (R3 ties IsManifest to the kinds Successors decodes)
@@ -830,7 +834,7 @@ func c07R2Push(c *Ctx) {
 					okErr, detail = false, "the helper "+FnName(e.Fn)+" that indexes has its error discarded at "+c.P.Pos(e.Call.Pos())
 					continue
 				}
-				if r := c05ErrFlow(e.Call, ErrFlowOpts{Tolerated: ifelseS(x.skip != "", []string{x.skip}, nil)}); !r.OK {
+				if r := c05ErrFlow(e.Call, ErrFlowOpts{Tolerated: ifelseS(x.skip != "", c05SkipSentinels(c.P), nil)}); !r.OK {
 					okErr, detail = false, r.Detail
 				}
 			}
@@ -1132,12 +1136,17 @@ func c07R2GC(c *Ctx) {
 			}
 			n++
 			tn := FnName(fn)
+			// installed: stored into the store's graph field (of an existing store, or of the one being constructed)
 			var installs []ssa.Instruction
-			for _, u := range c05FieldUses([]*ssa.Function{fn}, "~/content/oci.Store", c05Cur.F("oci.graph")) {
-				if st, isStore := u.Use.(*ssa.Store); isStore && SameValue(st.Val, G.Value()) {
+			AllInstrs(fn, func(in ssa.Instruction) {
+				st, isStore := in.(*ssa.Store)
+				if !isStore || !SameValue(st.Val, G.Value()) {
+					return
+				}
+				if fa, isFA := st.Addr.(*ssa.FieldAddr); isFA && c05IsNamedType(fa.Type().(*types.Pointer).Elem(), "internal/graph", "Memory") {
 					installs = append(installs, st)
 				}
-			}
+			})
 			ok := len(installs) > 0
 			for _, a := range c05MaybeNilAtoms(fn) {
 				if ok && !c05AtomMustPass(a, newCut().Instr(installs...)) {
